@@ -96,7 +96,10 @@ func list2TestKeyArgs(
 	return
 }
 
-func processBinding(s, ns *slip.Scope, arg slip.Object, depth int) {
+// processBinding binds the variables of a let style binding list in ns. If an
+// initial value form evaluates to a return-from, return, or go the remaining
+// bindings are not made and that exit object is returned.
+func processBinding(s, ns *slip.Scope, arg slip.Object, depth int) (exit slip.Object) {
 	var bindings slip.List
 	switch ta := arg.(type) {
 	case nil:
@@ -120,7 +123,11 @@ func processBinding(s, ns *slip.Scope, arg slip.Object, depth int) {
 			if 1 < len(tb) {
 				// Use the original scope to avoid using the new bindings since
 				// they are evaluated in apparent parallel.
-				ns.Let(sym, slip.EvalArg(s, tb, 1, depth))
+				v := slip.EvalArg(s, tb, 1, depth)
+				if slip.IsExit(v) {
+					return v
+				}
+				ns.Let(sym, v)
 			} else {
 				ns.Let(sym, nil)
 			}
@@ -128,6 +135,7 @@ func processBinding(s, ns *slip.Scope, arg slip.Object, depth int) {
 			slip.TypePanic(s, depth, "binding", tb, "list", "symbol")
 		}
 	}
+	return nil
 }
 
 // callN is used by second, third, fourth, etc.
